@@ -7,7 +7,7 @@ from props.c03 import (STD, KIND, POOL, COLNAMES, build, jval, unjval, jrow, db_
 ID = 'C04'
 LEVEL = 'proof'
 CLUSTER = 'B'
-GEN_UNITS = ['Consts']
+GEN_UNITS = ['Consts', 'sql_runtime', 'sql_to_sql_value', 'sql_update_exec', 'sql_update_column_exec', 'sql_add_column_exec']
 RULE = ('Histories of 1-12 modifications (update on a selection, update_xyz, update_column with / without index and with fewer / more values than rows (zip pairing), add_column, '
         '_fix_chainID) on tables of 0-30 atoms; after EVERY step get("*") and get_colnames() of the real object are compared with '
         'the state of the Lean model (Model.step) and of the reference list-of-records model (Spec.step). Value containers: list '
@@ -15,7 +15,11 @@ RULE = ('Histories of 1-12 modifications (update on a selection, update_xyz, upd
         'steps are malformed (row count / column count mismatch, ragged value rows, unknown attribute or condition name, unknown table): they must '
         'raise and leave the state as it was. About one step in six is a QUERY (get with conditions, also on added columns) on the '
         'same object, so that answers after earlier updates, added columns and raised exceptions are compared too. A history is non-trivial when some step changed the table and some step was rejected or '
-        'a later step read cells written earlier.')
+        'a later step read cells written earlier. '
+        'SQL TEXT TIE (extra checks): on a further stream of histories the statement text and the data rows that update / update_xyz / '
+        'update_column / add_column hand to executemany / execute (recorded by a proxy around db.c in the harness) are compared with the '
+        'text / rows of the TRANSLATED builders (Gen/Sql.lean; driver ops sql_update, sql_update_column, sql_add_column), and the recorded '
+        'statement is executed by MicroSql on the state before the step and compared with the state sqlite3 leaves.')
 ASSUMPTIONS = ['sqlite3 binds Python int / float / str as the values they are and stores them by column affinity as Model.storeVal says '
                '(sampled on every step)',
                'NumPy carriers are converted by _to_sql_value (ndarray rows iterate to NumPy scalars): the carrier is a harness dimension, '
@@ -328,6 +332,93 @@ def run_history(c, cls=None):
 
 def impl(ctx, c):
     return run_history(c)
+
+
+# ---------------------------------------------------------------------------------------------------------
+# the SQL text tie: what update / update_column / add_column send to SQLite vs the translated builders
+# ---------------------------------------------------------------------------------------------------------
+
+def sql_text_checks(ctx):
+    import vlib
+    rng = ctx.rng
+    lines, meta = [], []               # text + rows comparisons
+    xlines, xmeta = [], []             # MicroSql execution of the recorded statement vs the state sqlite3 leaves
+    counts = {'update': 0, 'update_column': 0, 'add_column': 0, 'raised-before-sql': 0}
+    for h in range(ctx.scale(120, 800)):
+        n = rng.choice([1, 2, 3, 4, 6, 8, 12])
+        rows, ops = gen_history(rng, n, rng.randrange(1, 9))
+        db = build(rows)
+        extra = []
+        for o in ops:
+            name = o['name']
+            if name not in ('update', 'update_xyz', 'update_column', 'add_column'):
+                call(lambda: apply_op(db, o))
+                continue
+            before = call(lambda: observe(db))
+            dbj = {'tabs': [{'name': 'atom', 'rows': before['tabs'][0]['rows']}], 'extra': list(extra), 'nModel': 0} if isinstance(before, dict) else None
+            rowID = None
+            if name in ('update', 'update_xyz'):
+                rowID = call(lambda: db.get('rowID', tablename=o['tn'], **kw_py(o['kw'])))
+            out, log = B.recorded(db, lambda: apply_op(db, o))
+            after = call(lambda: observe(db))
+            sent = [e for e in log if e[0] == 'executemany' or e[1].startswith('ALTER')]
+            if name == 'add_column' and not is_err(out):
+                extra.append({'name': o['colname'], 'decl': B_decl(o['coltype'])})
+            if not sent:
+                counts['raised-before-sql'] += 1
+                continue
+            e = sent[-1]
+            if name in ('update', 'update_xyz'):
+                if is_err(rowID):
+                    continue
+                cs = 'x,y,z' if name == 'update_xyz' else o['columns']
+                case = {'op': 'sql_update', 'tn': o['tn'], 'columns': cs.split(',') if ',' in cs else [cs], 'values': o['values'], 'rowID': rowID}
+                got = {'text': e[1], 'rows': [[jval(x) for x in r] for r in e[2]]}
+                counts['update'] += 1
+            elif name == 'update_column':
+                case = {'op': 'sql_update_column', 'tn': o['tn'], 'colname': o['colname'], 'values': o['values']}
+                if o.get('index') is not None:
+                    case['index'] = o['index']
+                got = {'text': e[1], 'rows': [[jval(x) for x in r] for r in e[2]]}
+                counts['update_column'] += 1
+            else:
+                v = unjval(o['value'])
+                case = {'op': 'sql_add_column', 'tn': o['tn'], 'colname': o['colname'], 'coltype': o['coltype'], 'value': o['value'], 'value_str': str(v)}
+                got = e[1]
+                counts['add_column'] += 1
+            lines.append(case); meta.append((case, got))
+            if dbj is not None and isinstance(after, dict):
+                if e[0] == 'executemany':
+                    xlines.append({'op': 'sql_executemany', 'db': dbj, 'text': e[1], 'rows': [[jval(x) for x in r] for r in e[2]]})
+                else:
+                    xlines.append({'op': 'sql_alter', 'db': dbj, 'text': e[1]})
+                xmeta.append((e, out, after))
+    ans = vlib.run_driver(lines + xlines, which='model', cluster=CLUSTER) if lines or xlines else []
+    res = []
+    bad = None
+    for (case, got), a in zip(meta, ans[:len(lines)]):
+        if a.get('model') != got and bad is None:
+            bad = {'case': case, 'real code sends': got, 'translated builder': a.get('model')}
+    res.append({'name': f'SQL text and data rows of update / update_column / add_column: real code = translated builder ({counts})',
+                'ok': bad is None and len(meta) > 30, 'case': bad, 'detail': 'Gen/Sql.lean update_exec / update_column_exec / add_column_exec',
+                'kind': 'sql-text'})
+    bad, nx, disc = None, 0, 0
+    for (e, out, after), a in zip(xmeta, ans[len(lines):]):
+        m = a.get('model')
+        if isinstance(m['out'], str) and m['out'].startswith('ERR:UNMODELLED'):
+            disc += 1
+            continue
+        nx += 1
+        real_out = out if is_err(out) else 'ok'
+        if (m['out'] != real_out or strip_names(m['db']) != after) and bad is None:
+            bad = {'statement': e[1], 'rows': short(e[2]), 'sqlite3': [real_out, short(after)], 'MicroSql': [m['out'], short(strip_names(m['db']))]}
+    res.append({'name': f'MicroSql = sqlite3 on every recorded UPDATE / ALTER TABLE ({nx} statements, {disc} outside the model)',
+                'ok': bad is None and nx > 30, 'case': bad, 'detail': 'Model/MicroSql.lean is the SQLite contract of Props/C04K', 'kind': 'microsql'})
+    return res
+
+
+def extra_checks(ctx):
+    return sql_text_checks(ctx)
 
 
 def strip_names(dbj):
